@@ -60,6 +60,12 @@ CHECKS = {
              must_probe=['alloc_mode_3', 'alloc_mode_4', 'alloc_mode_5', 'workspace_queries', 'abort_under_fault', 'returned_info_gt_n', 'workspace_size_sufficient_after_all', 'user_workspace_calls'],
              assumptions=["a call that returns info = 0 after an injected failure is accepted only if its result passes the full oracles (counted as succeeded_despite_failed_request)",
                           "allocator requests are counted inside the driver call only (orderings computed by get_perm_c before the call are outside the armed window)"]),
+ 'C17': dict(seed_offset=17, level='exploration', rule=RULE_A + "; a case here is a history (as in C08) extended with early-return calls (workspace query, illegal argument, exactly singular matrix, caller workspace too small) that ends with the documented destroy calls and is executed twice in a row",
+             props=['C17'],
+             batches=[dict(profile='leak', flavour='plain', quick=20000, thorough=1000000)],
+             must_probe=['leak_histories_checked', 'workspace_queries', 'illegal_argument_calls', 'workspace_too_small_returns', 'refactorizations', 'factored_calls'],
+             assumptions=["accounting covers every malloc/calloc/realloc/free issued inside a library call (link-time wrappers); thread accounting is the simulator's own (created = finished = joined, checked on every call of every profile)",
+                          "runs that end in the abort path are not leak-checked (the process is gone)"]),
  'C09': dict(seed_offset=9, level='exploration', rule=RULE_A, props=['C09'],
              batches=[dict(profile='strf', flavour='plain', quick=60000, thorough=3000000), dict(profile='ssv', flavour='plain', quick=20000, thorough=1000000)],
              must_probe=['factorizations_checked', 'numbering_ne_storage_order']),
